@@ -10,7 +10,8 @@ def field_name(rng):
     k = rng.random()
     if k < .5:
         return rng.choice(['Package', 'Version', 'Depends', 'Description', 'Maintainer', 'Source', 'Files', 'License',
-                           'Copyright', 'Format', 'Comment', 'X-Foo', 'Homepage', 'Section', 'Architecture'])
+                           'Copyright', 'Format', 'Comment', 'X-Foo', 'Homepage', 'Section', 'Architecture',
+                           'From', 'From-Source', 'Fromage', 'Content-Length', 'Received', 'Subject'])
     n = rng.choice(NAME_HEAD) + ''.join(rng.choice(NAME_TAIL) for _ in range(rng.randint(0, 8)))
     return n
 
